@@ -1333,6 +1333,11 @@ class Interp:
         if name == "matches":
             _m, ex, pat, guard = args[0]
             v = self.eval(ex, env)
+            if isinstance(v, SymEnum) and guard is None:
+                # field-less symbolic enum against variant / associated-constant paths: a formula, no fork
+                alts = pat[1] if pat[0] == "p_or" else [pat]
+                if all(a[0] == "p_path" for a in alts):
+                    return z3.Or([to_bool(v.conds.get(a[1][-1], False)) for a in alts])
             env2 = Env(env)
             ok = self.bind(pat, v, env2)
             if ok and guard is not None:
